@@ -85,6 +85,9 @@ def c20(ck, tier, seed):
     base = {"count": 25 if tier == "quick" else 250, "nmax": 5, "steps": 50}
     variants = [{"threads": 2}] if tier == "quick" else [{"threads": 1}, {"threads": 2}, {"threads": 8, "split": 4}]
     _record_and_replay(ck, "C20", tier, seed, base, variants, features_list=ALL_FEATURES)
+    # stress histories (few operands, every operator again and again, add_vars / gc / reorder in between)
+    base = {"count": 15 if tier == "quick" else 150, "nmax": 5, "steps": 120, "stress": 1}
+    _record_and_replay(ck, "C20", tier, seed + 500, base, variants, features_list=ALL_FEATURES, sub="stress")
     ck.assumptions += ["features hugealloc / statistics / parking_lot are not varied", "MTBDD exists on the index backend only"]
 
 
